@@ -41,6 +41,9 @@ def bounds(tier):
 def cases(shard, tier):
     d, src = shard['dtype'], shard['src']
     casts = c03.CASTS[d][:2] if tier == 'quick' else c03.CASTS[d][:3]
+    # lossy casts too (float with NaN/inf -> integer, wide -> narrow integer): the file content is C03's business,
+    # here only the caller's arrays matter
+    casts = casts + (['int32', 'uint8'] if d.startswith('float') else ['int8' if d != 'int8' else 'uint8'])
     chunks = [None, 1] if tier == 'quick' else [None, 1, 2, 3]
     wins = [None, (1, 2)] if tier == 'quick' else [None, (1, 2), (0, 2), (1, 3), (2, 3)]
     layouts = ['C', 'F', 'strided', 'readonly', 'view'] if src in ('inline', 'dict', 'mixed') else ['C', 'readonly']
